@@ -50,7 +50,7 @@ def _config(wire=False):
       r = sc.search_space.root
       r.add_float_param('f', -1.0, 1.0)
       r.add_int_param('i', 0, 5)
-      r.add_discrete_param('d', [1, 2, 4])
+      r.add_discrete_param('d', [-7, 2, 4])          # integer-valued, one negative value
       r.add_discrete_param('df', [0.5, 1.5])
       r.add_categorical_param('c', ['a', 'b'])
       r.add_bool_param('b')
@@ -76,7 +76,7 @@ def flat_values(fval: float, ival: int, d: int, df: int, c: int, b: bool) -> boo
     return True
   d, df, c, b = conc(d, 0, 2), conc(df, 0, 1), conc(c, 0, 1), cbool(b)
   sc = _config()
-  dval, dfval, cval = [1, 2, 4][d], [0.5, 1.5][df], ['a', 'b'][c]
+  dval, dfval, cval = [-7, 2, 4][d], [0.5, 1.5][df], ['a', 'b'][c]
   t = vz.Trial(id=1, parameters={'f': fval, 'i': ival, 'd': dval, 'df': dfval, 'c': cval, 'b': 'True' if b else 'False'})
   got = sc.trial_parameters(pc.TrialConverter.to_proto(t))
   reach('flat')
